@@ -8,7 +8,13 @@ SLOT="$1"; PATCH="$2"; TIER="$3"; shift 3
 W=/dev/shm/iso_$SLOT
 mkdir -p $W/out
 rsync -a --delete --exclude target --exclude .git /repo/ $W/repo/
-rsync -a --delete --exclude target /verif/sim/ $W/sim/
+if [ "${ISO_SIM:-tree}" = "head" ]; then
+  # the committed harness (background runs must not pick up half-finished edits)
+  rm -rf $W/sim.new && mkdir -p $W/sim.new && git -C /verif archive HEAD sim | tar -x -C $W/sim.new
+  rsync -a --delete --exclude target $W/sim.new/sim/ $W/sim/
+else
+  rsync -a --delete --exclude target /verif/sim/ $W/sim/
+fi
 sed -i "s|/repo/|$W/repo/|g" $W/sim/Cargo.toml
 if [ "$PATCH" != "-" ]; then
   ( cd $W/repo && patch -p1 -s --no-backup-if-mismatch < "$PATCH" ) || { echo "patch does not apply"; exit 2; }
